@@ -149,7 +149,7 @@ var c03Ops = []string{
 	"sign_jwt", "sign_jwt", "sign_jwt", "sign_jws", "sign_jws", "sign_jws", "sign_jws",
 	"inproc_sign_jws", "inproc_sign_jws", "inproc_sign_jws", "inproc_sign_jwt", "inproc_link", "inproc_link",
 	"inproc_jwk_zoo", "inproc_jwk_zoo", "lc_cycle", "lc_cycle", "lc_new", "lc_use", "lc_use", "lc_delete",
-	"hostile_kid", "hostile_kid",
+	"hostile_kid", "hostile_kid", "migrate_again",
 	"encrypt_jwe", "encrypt_jwe", "decrypt_jwe", "decrypt_jwe",
 	"dpop_create", "dpop_create", "dpop_validate",
 	"token_flow", "introspect",
@@ -773,6 +773,9 @@ func (s *c03State) step(st c03Step) {
 
 	case "hostile_kid":
 		s.hostileKids(st)
+
+	case "migrate_again":
+		s.migrateAgain(st)
 
 	case "encrypt_jwe":
 		var receiver string
